@@ -35,7 +35,10 @@ SPEC = dict(
     rule=("one run = one tape: stratum hooks-direct (1/7) | full-stack over TCP (3/7) | full-stack with QUIC+WebTransport (3/7: per dial "
           "a non-empty subset of {QUIC, WebTransport, TCP} address kinds (uniform over the 7 subsets), subsets of the QUIC and "
           "WebTransport address forms, UDP faults in 2/5 of the runs: "
-          "loss 0|3|12|30 %, duplication 0|5 %, latencies none|<=15 ms|<=400 ms, stopped before the final round); full-stack: link whole|fragmented, security "
+          "loss 0|3|12|30 %, duplication 0|5 %, latencies none|<=15 ms|<=400 ms, stopped before the final round; hole-punch rounds (weight 3 of 15 steps): G punches towards P|Q in the server role through "
+          "Swarm.DialPeer (2/3) | the QUIC transport's Dial (1/3) while the host | its twin on the decoy IP | both dial G over QUIC "
+          "after 0|50 ms|1 s|4.9 s, in half of the delayed cases one Block(3/4)|Unblock call on a rule matching them returns "
+          "mid-punch); full-stack: link whole|fragmented, security "
           "noise|tls, host IPs of P and Q and two decoy IPs from a 20-address pool on the subnet edges, 3-10 steps of dial round "
           "(subset of G->P, P->G, G->Q, Q->G run concurrently, each triggered by Swarm.DialPeer | Swarm.NewStream; per outbound dial a subset of the address forms, optional decoy) | "
           "Block/Unblock call (fault: none | process stop after the datastore mutation | I/O error) | clean restart, and a final "
@@ -43,7 +46,9 @@ SPEC = dict(
           "the three load queries first. non-trivial = at least one Block was acknowledged and at least one oracle evaluation "
           "with a definite expectation followed; distinct = distinct (stratum, security, hosts, sequence of calls with outcomes, "
           "rounds with dial results and connection counts) x schedule hash"),
-    probes=["stratum-full-stack", "stratum-hooks-direct", "stratum-full-stack-quic",
+    probes=["stratum-full-stack", "stratum-hooks-direct", "stratum-full-stack-quic", "punch-round", "punch-with-twin", "punch-succeeded", "punched-conn-handed-out",
+            "punch-returned-conn-direct", "rule-change-mid-punch", "punch-round-with-blocked-dialler", "punch-delay-0s",
+            "punch-delay-50ms", "punch-delay-1s", "punch-delay-4.9s",
             "G-knows-quic", "G-knows-webtransport", "G-knows-tcp", "G-knows-quic+webtransport", "G-knows-quic+tcp",
             "G-knows-webtransport+tcp", "G-knows-quic+webtransport+tcp",
             "remote-knows-quic", "remote-knows-webtransport", "remote-knows-tcp", "remote-knows-quic+webtransport",
@@ -72,13 +77,14 @@ SPEC = dict(
           "swarm (dialPeer, addrsForDial incl. DNS resolution step, filterKnownUndialables, dial worker, addConn, notifications)",
           "tcp transport dial path (WithDialerForAddr)", "upgrader + gated listener (InterceptAccept, InterceptSecured call sites)",
           "noise, tls", "multistream-select", "yamux", "pstoremem", "eventbus",
-          "p2p/transport/quic (listener.Accept gating, transport.dial gating), quicreuse, quic-go (stratum full-stack-quic)",
+          "p2p/transport/quic (listener.Accept gating incl. the hole-punch hand-off, transport.dial gating, transport.holePunch in the server role), quicreuse, quic-go (stratum full-stack-quic)",
           "p2p/transport/webtransport (httpHandler InterceptAccept, InterceptSecured after the Noise handshake, dial path), cert manager, quic-go/http3, webtransport-go (stratum full-stack-quic)"],
     stubs=["wire: simnet TCP model", "wire: simnet UDP model (drawn loss / duplication / latency per datagram) + a recording filter that spots G's client Initial packets",
            "crypto/rand: simrand (seeded) in the QUIC stratum", "disk: simdisk wrapper around MapDatastore (process stop after a mutation, I/O error on an operation)",
            "DNS: fake MultiaddrDNSResolver mapping p.test/q.test to the hosts' IPs (dns6 of an IPv4 host yields the IPv4-mapped form)",
            "a delegating recorder around the real gater (counts refusals, compares each live answer with the model)",
-           "null resource manager; no basic host / identify on the nodes"],
+           "null resource manager; no basic host / identify on the nodes",
+           "hole punching is driven by the harness (WithSimultaneousConnect server role + a remote dialling G), not by the DCUtR protocol / relay; the twin is a second real node with the host's key"],
     assume=["virtual clock of testing/synctest", "5 virtual seconds after the dials returned exceed every dial-ranking delay on these paths",
             "a rule change happens only at a quiescent instant; an inbound connection's chain gating hooks -> addConn -> notification takes no virtual time, so a notification is judged by the rules in force when it arrives",
             "15 virtual seconds after the dials of a round returned exceed the WebTransport listener's 10 s handshake timeout plus the largest drawn latency: no inbound handshake that passed InterceptAccept straddles the next rule change",
